@@ -2,12 +2,14 @@ from checks.generic import standard
 
 def run(ctx):
     return standard(ctx,
-        props=[("Props.C18", ["c18_escape_safe", "c18_hidden_input", "c18_old_input_refuted"])],
+        props=[("Props.C18", ["c18_escape_safe", "c18_hidden_input", "c18_old_input_refuted", "c18_escaped_fields_inert", "c18_document_no_raw", "c18_page_fields_inert", "c18_typed_failure_refuted", "c18_raw_field_refuted", "c18_field_contexts_safe", "c18_quoted_value", "c18_unquoted_value"])],
         harness=("TestVerif_C18", ["kmd/common.go", "kmd/creds.go", "kmd/c18.go"]),
-        obl=("Obl_C18.v", ["c18_raw_sinks", "c18_login_input_escaped", "c18_direct_writes"]),
-        cases=("CasesC18.v", [("c18_mismatches", "VALUE attribute of the hidden INPUT in served pages = html_escape(ensureHTMLSafeLoginDestination(dest))")], "CasesC18.idx"),
-        trusted=["html/template contextual auto-escaping of ordinary template fields (exercised by canaries, not modelled)",
+        obl=("Obl_C18.v", ["c18_raw_sinks", "c18_login_input_escaped", "c18_direct_writes", "c18_templates_html", "c18_text_templates_offline", "c18_html_typed_writers", "c18_field_contexts"]),
+        cases=("CasesC18.v", [("c18_mismatches", "VALUE attribute of the hidden INPUT in served pages = html_escape(ensureHTMLSafeLoginDestination(dest))"),
+                             ("c18_failure_mismatches", "writeFailureResponse = failure_response of the model: declared type, body bytes, rendered-as-document verdict", "CasesC18f.idx"),
+                             ("c18_escaper_mismatches", "html/template's rendering of a field in text / quoted-attribute / unquoted-attribute context = render_field of the model", "CasesC18e.idx")], "CasesC18.idx"),
+        trusted=["html/template: that it recognises the context of a field as tools/extract/c18_contexts.go does (the escapers of the text, quoted and unquoted attribute contexts themselves are modelled and compared byte for byte); its URL filter/normaliser and the script/style/CSS escapers (no field of the current templates needs them)",
                  "golang.org/x/net/html tokenizer as the HTML5 parser of the oracle",
                  "tools/extract: table of conversions to template.HTML and friends"],
         assumptions=["url.Parse(..).String() is an arbitrary function in the theorem (the proof does not depend on it)"],
-        unproved=["ordinary template fields: html/template auto-escaping is trusted library code, covered by canary probes of every route"])
+        unproved=["the context analysis of html/template itself (which escaper it picks for a field) is library code: tied by the regenerated context table + byte-level comparison of real renderings, and by canary probes of every route"])
